@@ -220,7 +220,15 @@ func runQuery(dir, name, query string, timeout time.Duration, wantModel bool, on
 			_ = cmd.Run()
 			el := time.Since(start).Seconds()
 			o := out.String()
-			first := strings.TrimSpace(strings.SplitN(strings.TrimSpace(o), "\n", 2)[0])
+			first := ""
+			for _, ln := range strings.Split(o, "\n") {
+				ln = strings.TrimSpace(ln)
+				if ln == "" || strings.HasPrefix(ln, "WARNING") || strings.HasPrefix(ln, "(warning") {
+					continue
+				}
+				first = ln
+				break
+			}
 			st := "unknown"
 			switch {
 			case first == "unsat":
